@@ -61,7 +61,12 @@ func (f *Frame) specEnv(st, old *State, override map[ssa.Value]SV) *SpecEnv {
 	}
 	for _, fv := range f.fn.FreeVars {
 		if v, ok := f.env[fv]; ok {
-			e.vars[fv.Name()] = specVar{sv: v, typ: fv.Type()}
+			// a captured variable is a cell; specs name the variable itself (its current content)
+			if pt, ok := fv.Type().Underlying().(*types.Pointer); ok && (v.T != "" || v.A != nil) {
+				e.vars[fv.Name()] = specVar{sv: tv(f.load(st, v, pt.Elem())), typ: pt.Elem()}
+			} else {
+				e.vars[fv.Name()] = specVar{sv: v, typ: fv.Type()}
+			}
 		}
 	}
 	return e
@@ -267,6 +272,9 @@ func (e *SpecEnv) eval(x *Expr) SVal {
 		e.fail("slice expression on %v", b.Typ)
 	case "deref":
 		p := e.eval(x.Args[0])
+		if p.IsType != nil {
+			return SVal{IsType: types.NewPointer(p.IsType)}
+		}
 		pt, ok := p.Typ.Underlying().(*types.Pointer)
 		if !ok {
 			e.fail("deref of non-pointer")
@@ -763,6 +771,15 @@ func (e *SpecEnv) call(x *Expr) SVal {
 			ne := e.bind(name, specVar{sv: tv(qsym(bn)), typ: typ})
 			b := ne.evalBool(body)
 			c.quant = true
+			if typ != tInt {
+				// typed bound variable ranges over well-formed values of its type
+				rng := c.wf(typ, qsym(bn), e.st.wm())
+				if fn.Name == "forall" {
+					b = implies(rng, b)
+				} else {
+					b = and(rng, b)
+				}
+			}
 			return goVal(fmt.Sprintf("(%s ((%s %s)) %s)", fn.Name, qsym(bn), srt, b), tBool)
 		case "fresh":
 			a := e.eval(args[0])
@@ -834,24 +851,84 @@ func (e *SpecEnv) call(x *Expr) SVal {
 			}
 			return goVal("(+ "+strings.Join(parts, " ")+")", tInt)
 		}
+		if fn.Name == "pb" {
+			// pb("Message.Field", bytes): the value protobuf decoding gives that field for these bytes
+			if len(args) != 2 || args[0].Op != "str" {
+				e.fail("pb(\"Message.Field\", val(bytes))")
+			}
+			name, _ := strconv.Unquote(args[0].Name)
+			b := e.eval(args[1])
+			if e.sortOfVal(b) != "BV" {
+				e.fail("pb: second argument must be a byte-string value (use val(...))")
+			}
+			fnm, srt, typ, err := e.x.pbField(name)
+			if err != nil {
+				e.fail("%v", err)
+			}
+			if srt == "BV" {
+				return ghostVal(app(fnm, b.T), "BV")
+			}
+			return goVal(app(fnm, b.T), typ)
+		}
+		if d, ok := e.x.S.Defs[fn.Name]; ok {
+			if len(args) != len(d.Params) {
+				e.fail("%s expects %d arguments", d.Name, len(d.Params))
+			}
+			ne := &SpecEnv{x: e.x, c: e.c, st: e.st, old: e.old, vars: map[string]specVar{}, pkg: e.pkg, guard: e.guard}
+			for i, a := range args {
+				v := e.eval(a)
+				var want string
+				var gt types.Type
+				if strings.Contains(d.Params[i][1], "go:") {
+					gt = e.x.resolveType(d.Params[i][1])
+					want = e.c.sortOf(gt)
+				} else {
+					want = e.x.resolveSort(d.Params[i][1])
+				}
+				got := e.sortOfVal(v)
+				if v.IsNil {
+					got = want
+				}
+				if got != want {
+					e.fail("%s: argument %d has sort %s, want %s", d.Name, i, got, want)
+				}
+				ne.vars[d.Params[i][0]] = specVar{sv: tv(v.T), sort: want, typ: gt}
+			}
+			if d.expr == nil {
+				ex, err := parseExpr(d.Body)
+				if err != nil {
+					e.fail("%s: %v", d.Src, err)
+				}
+				d.expr = ex
+			}
+			r := ne.eval(d.expr)
+			return ghostVal(r.T, e.x.resolveSort(d.Ret))
+		}
 		// ghost function
 		if g, ok := e.x.S.Ghosts[fn.Name]; ok {
 			if len(args) != len(g.Args) {
 				e.fail("ghost %s expects %d arguments", g.Name, len(g.Args))
 			}
 			var as []string
+			var rs []string
 			for i, a := range args {
 				v := e.eval(a)
+				want := e.x.resolveSort(g.Args[i])
+				rs = append(rs, want)
 				got := e.sortOfVal(v)
 				if v.IsNil {
-					got = g.Args[i]
+					got = want
 				}
-				if got != g.Args[i] {
-					e.fail("ghost %s argument %d has sort %s, want %s", g.Name, i, got, g.Args[i])
+				if got != want {
+					e.fail("ghost %s argument %d has sort %s, want %s", g.Name, i, got, want)
 				}
 				as = append(as, v.T)
 			}
-			fnm := c.declFun("ghost:"+g.Name, g.Args, g.Ret)
+			ret := e.x.resolveSort(g.Ret)
+			fnm := c.declFun("ghost:"+g.Name, rs, ret)
+			if ret != g.Ret {
+				return ghostVal(app(fnm, as...), ret)
+			}
 			if g.Ret == "String" || contains(g.Args, "String") {
 				c.useStrings = true
 			}
@@ -972,4 +1049,87 @@ func (e *SpecEnv) assignTarget(part string) ([]assignTarget, error) {
 		return nil, fmt.Errorf("assigns %s: unsupported type %s", part, v.Typ)
 	}
 	return out, nil
+}
+
+// resolveSort maps a sort written in a spec file to an SMT sort; "go:pkg/path.Type" names the sort of
+// a Go type.
+func (x *Exec) resolveSort(s string) string {
+	if !strings.Contains(s, "go:") {
+		return s
+	}
+	return x.c.sortOf(x.resolveType(s))
+}
+
+// resolveType parses "go:pkg/path.Type", "*go:pkg/path.Type", "[]go:..." into a Go type.
+func (x *Exec) resolveType(s string) types.Type {
+	if strings.HasPrefix(s, "*") {
+		return types.NewPointer(x.resolveType(s[1:]))
+	}
+	if strings.HasPrefix(s, "[]") {
+		return types.NewSlice(x.resolveType(s[2:]))
+	}
+	if !strings.HasPrefix(s, "go:") {
+		if obj := types.Universe.Lookup(s); obj != nil {
+			return obj.Type()
+		}
+		panic(specError{"bad type " + s})
+	}
+	name := strings.TrimPrefix(s, "go:")
+	i := strings.LastIndex(name, ".")
+	if i < 0 {
+		panic(specError{"bad go: sort " + s})
+	}
+	pk, tn := name[:i], name[i+1:]
+	for _, lp := range x.P.flat {
+		if lp.PkgPath == pk && lp.Types != nil {
+			if obj := lp.Types.Scope().Lookup(tn); obj != nil {
+				return obj.Type()
+			}
+		}
+	}
+	panic(specError{"unknown Go type in sort " + s})
+}
+
+// pbField returns the uninterpreted decode function of a protobuf message field.
+func (x *Exec) pbField(name string) (fn, sort string, typ types.Type, err error) {
+	i := strings.Index(name, ".")
+	if i < 0 {
+		return "", "", nil, fmt.Errorf("pb: want Message.Field, got %q", name)
+	}
+	mt, fld := name[:i], name[i+1:]
+	var st types.Type
+	for _, lp := range x.P.flat {
+		if lp.Types == nil || !strings.Contains(lp.PkgPath, "proto") {
+			continue
+		}
+		if obj := lp.Types.Scope().Lookup(mt); obj != nil {
+			if _, ok := obj.Type().Underlying().(*types.Struct); ok {
+				st = obj.Type()
+				break
+			}
+		}
+	}
+	if st == nil {
+		return "", "", nil, fmt.Errorf("pb: message type %s not found", mt)
+	}
+	s := st.Underlying().(*types.Struct)
+	k := findField(s, fld)
+	if k < 0 {
+		return "", "", nil, fmt.Errorf("pb: no field %s in %s", fld, mt)
+	}
+	fn, sort = x.pbFieldFn(st, k)
+	return fn, sort, s.Field(k).Type(), nil
+}
+
+func (x *Exec) pbFieldFn(st types.Type, k int) (fn, sort string) {
+	s := st.Underlying().(*types.Struct)
+	ft := s.Field(k).Type()
+	sort = x.c.sortOf(ft)
+	if sl, ok := ft.Underlying().(*types.Slice); ok {
+		if b, ok := sl.Elem().Underlying().(*types.Basic); ok && b.Kind() == types.Uint8 {
+			sort = "BV"
+		}
+	}
+	fn = x.c.declFun("pb:"+typeKey(st)+"."+s.Field(k).Name(), []string{"BV"}, sort)
+	return
 }
